@@ -84,7 +84,7 @@ def save(pid, n, res, patch, demo):
 def detect(pid, n, props):
     # SEED_REPO / SEED_VERIF: run against a scratch worktree of /repo and a scratch copy of /verif
     # pointed at it (used while /repo itself is occupied by a long run)
-    REPO = os.environ.get("SEED_REPO", REPO)
+    REPO = os.environ.get("SEED_REPO", "/repo")
     VERIF = os.environ.get("SEED_VERIF", "/verif")
     d = seed_dir(pid, n)
     patch = f"{d}/patch.diff"
